@@ -4,6 +4,7 @@ int shp_rs8_available(void) { return 0; }
 void shp_rs8_addmul1(uint8_t *d, uint8_t *s, uint8_t c, int sz) { (void)d; (void)s; (void)c; (void)sz; }
 int shp_rs8_table(int which, const void **p, size_t *es, size_t *cnt, size_t *stride) { (void)which; (void)p; (void)es; (void)cnt; (void)stride; return 0; }
 void shp_rs8_reinit(void) { }
+void shp_set_verbosity(uint32_t v) { (void)v; }
 int shp_rs8_use(int flavour, uint64_t start, uint64_t count) { (void)flavour; (void)start; (void)count; return 0; }
 #else
 /* private copy of the translation unit: its globals are made local by the build (objcopy -G 'shp_*') */
@@ -17,6 +18,7 @@ void shp_rs8_addmul1(uint8_t *d, uint8_t *s, uint8_t c, int sz)
 	of_addmul1(d, s, c, sz);
 }
 void shp_rs8_reinit(void) { of_rs_init(); }
+void shp_set_verbosity(uint32_t v) { of_verbosity = v; }	/* the process-wide setting every of_create_codec_instance() overwrites */
 /* ordinary use of the codec kernel: `count` codec contexts created and freed, numbered from `start`;
  * flavour 1 = create/free only, 2 = + one repair symbol encoded, 3 = + one erasure decoded. Returns the number of
  * calls that reported an error (none is expected). */
